@@ -25,6 +25,10 @@ class Known:
         return "%s [%s] witness %s" % (f["class"], f["site"], "".join(w["lines"]).strip().replace("\n", " / ") if w else "")
 
     def classify(self, lines, desc, obs):
+        if desc.get("kind") == "fuzz":
+            c = classify_fuzz(self.entries, lines, desc, obs)
+            if c is not None:
+                return c
         for fid in self.entries:
             pred = PREDICATES.get(fid)
             if pred is not None and pred(lines, desc, obs):
@@ -33,3 +37,201 @@ class Known:
 
 
 PREDICATES = {}
+
+
+# --------------------------------------------------------------------------------------------------
+# predicates.  desc comes from the generators (asmgen): kind grid/label/special/fuzz/prog, form, value, spelling
+# --------------------------------------------------------------------------------------------------
+import re
+
+STMT_RE = re.compile(r"^([\w@]*)\s+(\w+)\s+(\S*)")
+
+
+def statements(lines):
+    """(label, MNEMONIC, operand) of every non-blank, non-comment line"""
+    out = []
+    for l in lines:
+        if not l.strip() or l.lstrip().startswith(";"):
+            continue
+        m = STMT_RE.match(l if l.endswith("\n") else l + "\n")
+        if m:
+            out.append((m.group(1), m.group(2).upper(), m.group(3)))
+    return out
+
+
+def symbol_kinds(lines):
+    labels, equs = set(), set()
+    for lb, mn, op in statements(lines):
+        if lb:
+            (equs if mn == "EQU" else labels).add(lb)
+    return labels, equs
+
+
+def form0(desc):
+    return desc.get("form", "").split(",")[0]
+
+
+def small_spelling(desc):
+    """spellings whose NumericValue gets size_hint 2 / DIRECT, or which resolve through an EQU symbol below 256"""
+    sp, v = desc.get("spelling"), desc.get("value")
+    if v is None or not 0 <= v < 256:
+        return False
+    return sp in ("hex2", "bin8", "equ-dec", "equ-hex4") or (sp == "hexn" and len("%X" % v) == 2) or sp == "chr"
+
+
+def is16(desc):
+    import asmlib
+    ins = next((x for x in asmlib.table() if x.mnemonic == desc.get("mn")), None)
+    return bool(ins and ins.is_16_bit)
+
+
+def p_label_as_index_offset(lines, desc, obs):
+    if desc.get("kind") == "label":
+        return form0(desc) in ("idxv", "iidxv")
+    labels, _ = symbol_kinds(lines)
+    for lb, mn, op in statements(lines):
+        m = re.match(r"^\[?([A-Za-z0-9@]+)([+\-*/][$\w]+)?,([^\]]*)\]?$", op)
+        if m and m.group(1) in labels and "PCR" not in m.group(3):
+            return True
+    return False
+
+
+def p_numeric_pcr(lines, desc, obs):
+    if desc.get("kind") in ("grid",):
+        return form0(desc) in ("pcr", "ipcr")
+    labels, _ = symbol_kinds(lines)
+    for lb, mn, op in statements(lines):
+        m = re.match(r"^\[?([^,\[\]]*),[^\]]*PCR[^\]]*\]?$", op)
+        if m:
+            left = re.split(r"[+\-*/]", m.group(1))
+            if not any(x in labels for x in left):
+                return True
+    return False
+
+
+def p_low_address_label(lines, desc, obs):
+    if desc.get("kind") == "label":
+        if form0(desc) not in ("plain", "dir", "ext", "extind", "imm"):
+            return False
+        if obs[0] != "OK":
+            return False
+        k = desc["stmt"]
+        val = obs[4][k - 1][0] if desc["spelling"] == "label-before" else obs[4][k + 1][0]
+        return val < 256
+    return False
+
+
+def p_imm16_one_byte(lines, desc, obs):
+    return desc.get("kind") == "grid" and form0(desc) == "imm" and desc.get("spelling", "").startswith("equ") and \
+        0 <= desc.get("value", -1) < 256
+
+
+def p_forced_extended_short_spelling(lines, desc, obs):
+    return desc.get("kind") == "grid" and form0(desc) == "ext" and small_spelling(desc)
+
+
+def p_indirect_address_one_byte(lines, desc, obs):
+    return desc.get("kind") == "grid" and form0(desc) == "extind" and small_spelling(desc)
+
+
+PREDICATES.update({
+    "label_as_index_offset": p_label_as_index_offset,
+    "numeric_pcr": p_numeric_pcr,
+    "low_address_label": p_low_address_label,
+    "imm16_one_byte": p_imm16_one_byte,
+    "forced_extended_short_spelling": p_forced_extended_short_spelling,
+    "indirect_address_one_byte": p_indirect_address_one_byte,
+})
+
+
+def p_forced_direct_out_of_range(lines, desc, obs):
+    if desc.get("kind") == "grid" and form0(desc) == "dir":
+        v = desc.get("value")
+        return v is not None and not 0 <= v <= 255
+    return False
+
+
+def imm_is_16(desc):
+    import asmlib
+    ins = next((x for x in asmlib.table() if x.mnemonic == desc.get("mn")), None)
+    return bool(ins and ins.mode.imm_sz - (2 if ins.mode.imm is not None and ins.mode.imm > 255 else 1) == 2)
+
+
+def p_imm8_out_of_range(lines, desc, obs):
+    if desc.get("kind") in ("grid", "label") and form0(desc) == "imm" and not imm_is_16(desc):
+        v = desc.get("value")
+        if desc.get("kind") == "label":
+            return True           # a label (16-bit address) as an 8-bit immediate
+        return v is not None and not -128 <= v <= 255
+    return False
+
+
+PREDICATES.update({"forced_direct_out_of_range": p_forced_direct_out_of_range, "imm8_out_of_range": p_imm8_out_of_range})
+
+
+def p_forced_direct_label(lines, desc, obs):
+    return desc.get("kind") == "label" and form0(desc) == "dir"
+
+
+EXPR_RE = re.compile(r"^[#<>\[]*([$]*\w+)[+\-*/]([$]*\w+)")
+
+
+def p_expression_width(lines, desc, obs):
+    """an operand that is a two-term expression none of whose terms is a label (constants / EQU symbols only)"""
+    labels, _ = symbol_kinds(lines)
+    for lb, mn, op in statements(lines):
+        m = EXPR_RE.match(op)
+        if m and m.group(1) not in labels and m.group(2) not in labels:
+            return True
+    return False
+
+
+PREDICATES.update({"forced_direct_label": p_forced_direct_label, "expression_width": p_expression_width})
+
+
+# ---- deriving a description from raw operand text (fuzzed operands) ----
+LIT_RE = re.compile(r"^(?:(\d+)|-(\d+)|\$([0-9A-Fa-f]{1,4})|%([01]{8}|[01]{16})|'(.))$")
+
+
+def literal(txt):
+    """(value, spelling) of a numeric literal, or None"""
+    m = LIT_RE.match(txt)
+    if not m:
+        return None
+    if m.group(1) is not None:
+        return (int(m.group(1)), "dec") if int(m.group(1)) <= 65535 else None
+    if m.group(2) is not None:
+        return (-int(m.group(2)), "neg") if int(m.group(2)) <= 32768 else None
+    if m.group(3) is not None:
+        h = m.group(3)
+        return (int(h, 16), {2: "hex2", 4: "hex4", 3: "hex3"}.get(len(h), "hexn"))
+    if m.group(4) is not None:
+        return (int(m.group(4), 2), "bin8" if len(m.group(4)) == 8 else "bin16")
+    return (ord(m.group(5)), "chr")
+
+
+def describe_operand(mn, op):
+    """a grid-style description of a raw operand text when it has one of the grid's shapes, else None"""
+    d = {"kind": "grid", "mn": mn}
+    shapes = [("imm", r"^#(.+)$"), ("dir", r"^<(.+)$"), ("ext", r"^>(.+)$"), ("extind", r"^\[([^,\]]+)\]$"),
+              ("ipcr", r"^\[([^,\]]+),PCR\]$"), ("pcr", r"^([^,\[\]]+),PCR$"), ("plain", r"^([^,\[\]#<>]+)$")]
+    for f, rx in shapes:
+        m = re.match(rx, op)
+        if m:
+            lit = literal(m.group(1))
+            if lit is None:
+                return None
+            d.update(form=f, value=lit[0], spelling=lit[1])
+            return d
+    return None
+
+
+def classify_fuzz(pid_entries, lines, desc, obs):
+    d = describe_operand(desc.get("mn"), (desc.get("operand", "").split() or [""])[0])
+    if d is None:
+        return None
+    for fid in pid_entries:
+        pred = PREDICATES.get(fid)
+        if pred is not None and pred(lines, d, obs):
+            return fid
+    return None
